@@ -518,7 +518,7 @@ fn expect_rejects(h: &Handler, enc: &Document, user: &str, owner: &str, tag: &st
             Err(p) => push(f, "no-panic", format!("{}: decrypt with a wrong password panicked: {}", tag, p)),
             Ok(Ok(())) => push(f, &format!("{}-wrong-password-rejected{}", tag, suffix), format!("decrypt({:?}) returned Ok although the user password is {:?} and the owner password is {:?}", w, short(user), short(owner))),
             Ok(Err(_)) => {
-                if d.objects != enc.objects || d.trailer != enc.trailer { push(f, &format!("{}-wrong-password-unchanged", tag), format!("decrypt({:?}) returned Err but modified the document", w)); }
+                if d.objects != enc.objects || d.trailer != enc.trailer { push(f, &format!("{}-wrong-password-unchanged{}", tag, suffix), format!("decrypt({:?}) returned Err but modified the document", w)); }
             }
         }
     }
@@ -619,12 +619,22 @@ fn check_case(c: &Case, state: Option<&EncryptionState>, formats: &[bool]) -> Fa
 // the run
 // ---------------------------------------------------------------------------------------------------------------
 
-struct Config { h: Handler, user: String, owner: String, family_b: bool }
+#[derive(Clone, Copy, PartialEq)]
+enum DocSel { All, Core, Pairs }
+
+struct Config { h: Handler, user: String, owner: String, sel: DocSel }
+
+/// the documents used with every password pair under V5 (whose password hash, ISO algorithm 2.B, costs about a millisecond per evaluation)
+fn is_core(d: &DocS) -> bool { d.label.starts_with("full") || d.label == "single:lit-33@7.3" || d.label == "single:crypt-StdCF@7.3" }
 
 struct CaseOut { nontrivial: bool, fails: Vec<(String, String, Value)>, sample: String, group: String }
 
 fn run_config(cfg: &Config, thorough: bool) -> Vec<CaseOut> {
-    let docs = if cfg.family_b { docs_b(&cfg.h) } else { docs_a(&cfg.h, thorough) };
+    let docs: Vec<DocS> = match cfg.sel {
+        DocSel::Pairs => docs_b(&cfg.h),
+        DocSel::All => docs_a(&cfg.h, thorough),
+        DocSel::Core => docs_a(&cfg.h, thorough).into_iter().filter(is_core).collect(),
+    };
     // R5/V5 states do not depend on the document: build once (the key-derivation hash is the expensive part)
     let shared = if cfg.h.legacy() { None } else { catch(|| make_state(&cfg.h, &Document::with_version("1.7"), &cfg.user, &cfg.owner)).ok().and_then(|r| r.ok()) };
     let formats: &[bool] = if thorough { &[false, true] } else { &[false] };
@@ -663,16 +673,18 @@ fn configs(thorough: bool) -> Vec<Config> {
             for (u, o) in &pws {
                 let mut h = h0.clone();
                 h.perms = p;
-                out.push(Config { h, user: u.clone(), owner: o.clone(), family_b: false });
+                let sel = if h.kind == Kind::V5 && !(p == PERM_ALL && u == "user" && o == "owner") { DocSel::Core } else { DocSel::All };
+                out.push(Config { h, user: u.clone(), owner: o.clone(), sel });
             }
         }
     }
     if thorough {
         // family B: ordered pairs of alphabet objects, one password pair, all permissions; R5/V5 with the first key and registered filters only
         for h0 in handlers(false) {
+            if h0.kind == Kind::V5 && !h0.em { continue; }
             let mut h = h0.clone();
             h.perms = PERM_ALL;
-            out.push(Config { h, user: "user".into(), owner: "owner".into(), family_b: true });
+            out.push(Config { h, user: "user".into(), owner: "owner".into(), sel: DocSel::Pairs });
         }
     }
     out
@@ -691,7 +703,8 @@ Not enumerated: ObjStm-typed streams, documents whose max_id is below an existin
 
 pub fn run(thorough: bool) -> Report {
     let mut rep = Report::new(BOUND, true);
-    let cfgs = configs(thorough);
+    let mut cfgs = configs(thorough);
+    if let Ok(only) = std::env::var("C05_ONLY") { cfgs.retain(|c| format!("{:?}", c.h.kind).starts_with(&only)); } // debugging aid: restrict to one handler kind
     let prev = std::panic::take_hook();
     std::panic::set_hook(Box::new(|_| {}));
     let results: Vec<Vec<CaseOut>> = cfgs.par_iter().map(|c| run_config(c, thorough)).collect();
